@@ -25,11 +25,23 @@ def stage_fields(ctx):
     return st
 
 
-def inv_stage(name, fn):
+def inv_stage(name, fn, e2e=False):
+    """e2e: run the monitor a second time END TO END (siminv.e2e): the same calls through the real Udp / TcpInverterProtocol on the virtual-time loop,
+    at quick depth (the violations of that pass are tagged in their message)"""
     def stage(ctx):
         st = Stage(name)
         goodwe = SI.reload_goodwe()
         fn(st, ctx, goodwe)
+        if e2e:
+            import copy
+            n0 = len(st.violations)
+            ctx2 = copy.copy(ctx); ctx2.deep = False; ctx2.search = False
+            goodwe = SI.reload_goodwe()
+            with SI.e2e():
+                fn(st, ctx2, goodwe)
+            for v in st.violations[n0:]:
+                if hasattr(v, 'what'): v.what = '[end to end through the real protocol classes] ' + v.what
+            st.stats['end_to_end_pass'] = True
         return st
     stage.__name__ = name
     return stage
